@@ -368,30 +368,64 @@ pub fn run_c20(tier: Tier) -> i32 {
         exps.push(e);
     }
     run_exps(&mut run, step_c20_any, exps, |_| {});
-    // (b) configuration bounds
-    let vals = [0u128, 1, D / 2, D - 1, D, D + 1];
-    let mut alpha = vec![];
-    for x in vals {
-        alpha.push(Act::EngConfig { by: "owner".into(), imr: Some(x), mmr: None, plr: None, lf: None });
-        alpha.push(Act::EngConfig { by: "owner".into(), imr: None, mmr: Some(x), plr: None, lf: None });
-        alpha.push(Act::EngConfig { by: "owner".into(), imr: None, mmr: None, plr: Some(x), lf: None });
-        alpha.push(Act::EngConfig { by: "owner".into(), imr: None, mmr: None, plr: None, lf: Some(x) });
-        alpha.push(Act::VammConfig { by: "owner".into(), v: 0, toll: Some(x), spread: None, fluct: None, twap: None });
-        alpha.push(Act::VammConfig { by: "owner".into(), v: 0, toll: None, spread: Some(x), fluct: None, twap: None });
-        alpha.push(Act::VammConfig { by: "owner".into(), v: 0, toll: None, spread: None, fluct: Some(x), twap: None });
-        for y in vals {
-            alpha.push(Act::EngConfig { by: "owner".into(), imr: Some(x), mmr: Some(y), plr: None, lf: None });
+    // (b) configuration bounds: at 6 decimals, and at 9 decimals with the same boundary values in raw units
+    let mut exps = vec![];
+    for dec in [6u8, 9] {
+        let d = 10u128.pow(dec as u32);
+        let vals = [0u128, 1, d / 2, d - 1, d, d + 1];
+        let mut alpha = vec![];
+        for x in vals {
+            alpha.push(Act::EngConfig { by: "owner".into(), imr: Some(x), mmr: None, plr: None, lf: None });
+            alpha.push(Act::EngConfig { by: "owner".into(), imr: None, mmr: Some(x), plr: None, lf: None });
+            alpha.push(Act::EngConfig { by: "owner".into(), imr: None, mmr: None, plr: Some(x), lf: None });
+            alpha.push(Act::EngConfig { by: "owner".into(), imr: None, mmr: None, plr: None, lf: Some(x) });
+            alpha.push(Act::VammConfig { by: "owner".into(), v: 0, toll: Some(x), spread: None, fluct: None, twap: None });
+            alpha.push(Act::VammConfig { by: "owner".into(), v: 0, toll: None, spread: Some(x), fluct: None, twap: None });
+            alpha.push(Act::VammConfig { by: "owner".into(), v: 0, toll: None, spread: None, fluct: Some(x), twap: None });
+            for y in vals {
+                alpha.push(Act::EngConfig { by: "owner".into(), imr: Some(x), mmr: Some(y), plr: None, lf: None });
+            }
         }
+        // several fields in one message: every subset of two or more fields, all valid or exactly one invalid
+        {
+            let ok = [d / 2, d / 4, d / 8, d / 16]; // imr, mmr, plr, lf  |  toll, spread, fluct
+            let bad = d + 1;
+            for mask in 1u32..16 {
+                if mask.count_ones() < 2 {
+                    continue;
+                }
+                let fields: Vec<usize> = (0..4).filter(|i| mask & (1 << i) != 0).collect();
+                let mut variants: Vec<Option<usize>> = vec![None];
+                variants.extend(fields.iter().map(|f| Some(*f)));
+                for inv in variants {
+                    let val = |i: usize| -> Option<u128> {
+                        if mask & (1 << i) == 0 {
+                            None
+                        } else if inv == Some(i) {
+                            Some(bad)
+                        } else {
+                            Some(ok[i])
+                        }
+                    };
+                    alpha.push(Act::EngConfig { by: "owner".into(), imr: val(0), mmr: val(1), plr: val(2), lf: val(3) });
+                    let tw = if mask & 8 == 0 { None } else if inv == Some(3) { Some(59u64) } else { Some(3600u64) };
+                    alpha.push(Act::VammConfig { by: "owner".into(), v: 0, toll: val(0), spread: val(1), fluct: val(2), twap: tw });
+                }
+            }
+            alpha.dedup();
+        }
+        for tw in [59u64, 60, 3600, 604_800, 604_801] {
+            alpha.push(Act::VammConfig { by: "owner".into(), v: 0, toll: None, spread: None, fluct: None, twap: Some(tw) });
+        }
+        for v in 0..3 {
+            alpha.push(Act::AddVamm { by: "owner".into(), v });
+            alpha.push(Act::RemoveVamm { by: "owner".into(), v });
+        }
+        let c = Cfg { n_vamms: 1, extra_unregistered: true, extra_7dec: true, dec, ..Cfg::default() };
+        let mut e = Exp::new("config bounds", c, alpha, vec![vec![]], tier.pick(2, 3));
+        e.raw = true;
+        exps.push(e);
     }
-    for tw in [59u64, 60, 3600, 604_800, 604_801] {
-        alpha.push(Act::VammConfig { by: "owner".into(), v: 0, toll: None, spread: None, fluct: None, twap: Some(tw) });
-    }
-    for v in 0..3 {
-        alpha.push(Act::AddVamm { by: "owner".into(), v });
-        alpha.push(Act::RemoveVamm { by: "owner".into(), v });
-    }
-    let c = Cfg { n_vamms: 1, extra_unregistered: true, extra_7dec: true, ..Cfg::default() };
-    let e = Exp::new("config bounds", c, alpha, vec![vec![]], tier.pick(2, 3));
-    run_exps(&mut run, step_c20_any, vec![e], |_| {});
+    run_exps(&mut run, step_c20_any, exps, |_| {});
     run.finish()
 }
